@@ -98,10 +98,16 @@ async def open_rig(backend, counter, path=None, file_db=None):
     if backend == "sql":
         import sqlalchemy as sa
 
-        def before(conn, cursor, statement, parameters, context, executemany):
+        # faults are raised where the driver would raise them (inside the DBAPI call), so that they reach the relay the way
+        # real engine errors do: wrapped by SQLAlchemy (sqlalchemy.exc.OperationalError), not as bare sqlite3 exceptions
+        def do_execute(cursor, statement, parameters, context):
             counter.tick()
 
-        sa.event.listen(rig.storage.db.sync_engine, "before_cursor_execute", before)
+        def do_execute_no_params(cursor, statement, context):
+            counter.tick()
+
+        for name, fn in (("do_execute", do_execute), ("do_executemany", do_execute), ("do_execute_no_params", do_execute_no_params)):
+            sa.event.listen(rig.storage.db.sync_engine, name, fn)
     else:
         import lmdb
 
